@@ -126,6 +126,9 @@ def check_attrs(obl, pck, ref, limit, header_only, maxmins, what):
                 obl.fail('%s: cells[%d] has no min/max tables' % (what, l))
                 continue
             keys = list(pck.fields.keys())
+            if len(keys) != ref.nf:
+                obl.fail('%s: %d field keys for %d header names' % (what, len(keys), ref.nf))
+                return
             for f in range(ref.nf):
                 for tab, exp, name in ((c['mins'], ref.mins, 'mins'), (c['maxs'], ref.maxs, 'maxs')):
                     col = tab.get(keys[f])
